@@ -47,7 +47,9 @@ def api_corr(rng, tier, prop):
             dis.append({'class': tag, 'check': 'N records for N points', 'observed': [r['n_points'], r['n_records']]})
         if d['names'] is not None and r['names'] != d['names']:
             dis.append({'class': tag, 'why': 'field names differ from the catalogue (model)', 'catalogue': d['names'], 'real': r['names']})
-        if r.get('order_preserved') is False:
+        if r.get('order_preserved') is False and tag.endswith('.ie_Solver') and IE_ID in set(k['id'] for k in flow.load_known('C05')):
+            stats.setdefault('known_finding_hits', []).append(tag)       # recorded finding: replayed separately (see IE_FINDING)
+        elif r.get('order_preserved') is False:
             dis.append({'class': tag, 'check': 'records follow the order of the requested points', 'permutation_of_sorted_points': r.get('order_perm'),
                         'observed': 'fields are not permuted like the positions'})
         if r.get('special_points_contract') is False:
@@ -74,9 +76,48 @@ def api_oracle(rng, tier, reasons):
     return _last.get('dis', [])
 
 
+IE_ID = 'ie-solver-nonmonotone-grid'
+IE_SCRIPT = r'''
+import warnings
+def main(payload):
+    from exactpack.solvers.radshocks.nED_radshocks import ie_Solver
+    with warnings.catch_warnings():
+        warnings.simplefilter('ignore')
+        s = ie_Solver()
+        knots = -np.flip(np.asarray(s.x, float))
+        d = np.diff(knots)
+        bad = np.nonzero(d <= 0)[0]
+        out = {'knots': int(len(knots)), 'non_increasing_steps': [int(i) for i in bad[:5]], 'knots_there': [float(v) for v in knots[max(int(bad[0]) - 2, 0):int(bad[0]) + 4]] if len(bad) else []}
+        rs = np.random.RandomState(12345)
+        perm = [0, 3, 2, 4, 1, 5]
+        for trial in range(12):
+            arr = np.sort(rs.uniform(-0.01, 0.01, 6)); t = float(rs.uniform(0, 1e-8))
+            A = s(arr, t); P = s(arr[perm], t)
+            for k in A.dtype.names[1:]:
+                a_ = np.asarray(A[k], float)[perm]; b_ = np.asarray(P[k], float)
+                m = np.abs(a_ - b_) > 1e-9 * (np.abs(a_) + np.abs(b_)) + 1e-300
+                if m.any():
+                    out['mismatch'] = {'points': [float(v) for v in arr], 'permutation': perm, 't': t, 'field': k,
+                                       'sorted_request_then_permuted': [float(v) for v in a_[m]], 'permuted_request': [float(v) for v in b_[m]]}
+                    return [out]
+    return [out]
+'''
+
+
+def ie_replay():
+    o = H.run_real(IE_SCRIPT, [0], timeout=900)[0]
+    if isinstance(o, dict) and (o.get('mismatch') or o.get('non_increasing_steps')):
+        return o
+    return None
+
+
+IE_FINDING = dict(id=IE_ID, refuted=None, replay=ie_replay,
+                  what='radshocks ie_Solver: the profile grid self.x is not monotone (a segment restarts at 0 after reaching 14.8), so the knots handed to np.interp are not '
+                       'increasing and the value returned at a point depends on the order / the other points of the request (density 1.39 vs 1.00 for the same point)')
+
 UNITS = [
     flow.Unit('api-model', groups=[], props=['props/C05_api.v']),
-    flow.Unit('catalogue', groups=['catalogue'], props=['props/C05_catalogue.v'], custom_corr=api_corr, oracle=api_oracle),
+    flow.Unit('catalogue', groups=['catalogue'], props=['props/C05_catalogue.v'], custom_corr=api_corr, oracle=api_oracle, findings=[IE_FINDING]),
 ]
 
 
